@@ -485,3 +485,6 @@ _LIP_OLD = "                    Q = aslinearoperator(Q)\n                    Q.d
 _LIP_NEW = "                    key = %s\n                    if key not in cache:\n                        Q = aslinearoperator(Q)\n                        Q.dtype = np.dtype(Q.dtype)\n                        cache[key] = eigsh(Q.H * Q, 1)[0][0]\n                    eigs[cl] += cache[key] * n / p / noise**2\n"
 T('C04', 'lipschitz-memo-by-matrix', [(INF, "        eigs = { cl : 0.0 for cl in self.model.cliques }\n", "        eigs = { cl : 0.0 for cl in self.model.cliques }\n        cache = { }\n"), (INF, _LIP_OLD, _LIP_NEW % 'id(Q)')])
 K('C04', 'lipschitz-memo-by-projection', [(INF, "        eigs = { cl : 0.0 for cl in self.model.cliques }\n", "        eigs = { cl : 0.0 for cl in self.model.cliques }\n        cache = { }\n"), (INF, _LIP_OLD, _LIP_NEW % 'tuple(proj)')], 'memo-key')
+T('C04', 'setup-whitens-once', [(INF, "            m = (Q, y, noise, proj)\n", "            Q = Q * (1.0/noise)\n            y = y * (1.0/noise)\n            m = (Q, y, 1.0, proj)\n")])
+K('C04', 'setup-whitens-twice', [(INF, "            m = (Q, y, noise, proj)\n", "            Q = Q * (1.0/noise)\n            y = y * (1.0/noise)\n            m = (Q, y, noise, proj)\n")], 'exactly-once')
+K('C04', 'setup-whitens-answers-only', [(INF, "            m = (Q, y, noise, proj)\n", "            y = y * (1.0/noise)\n            m = (Q, y, 1.0, proj)\n")], 'exactly-once')
